@@ -62,8 +62,17 @@ def judge(case, obs):
     return None
 
 
+def matches_asis(obs, a):
+    """exact classifier of an open finding: the observed molecule is what the I-layer with the open deviations on yields"""
+    if a["err"] or not a["fired"]:
+        return False
+    ob, oe = excl_view(obs)
+    ab, ae = excl_view(a["got"])
+    return obs["nrexcl"] == a["got"]["nrexcl"] and ob == ab and oe == ae and len(obs["atoms"]) == len(a["got"]["atoms"])
+
+
 def _replay_chunk(arg):
-    chunk, ffs, wd, sd, gp_every = arg
+    chunk, ffs, wd, sd, gp_every, asis = arg
     rendered = {}
     out = []
     for ci, case, fmt in chunk:
@@ -82,7 +91,12 @@ def _replay_chunk(arg):
             why = "the code raised %s at %s (%s): %s" % (e["type"], e["site"], e["stage"], e["msg"][:160])
         else:
             why = judge(case, obs["final"])
-        out.append((ci, fmt, via, why, lay if why else None, obs if why else None))
+        sig = None
+        if why and "exc" not in obs:
+            for a in asis.get(u.case_key(inp), []):
+                if matches_asis(obs["final"], a):
+                    sig = u.attribute(a["fired"])
+        out.append((ci, fmt, via, why, lay if why else None, obs if why else None, sig))
     return out
 
 
@@ -90,7 +104,11 @@ def has_block_exclusions(ff):
     return any(x["sec"] == "exclusions" for b in ff["blocks"] for x in b["inters"])
 
 
-def replay_instance(ck, label, res, tier, sd, gp_every):
+def replay_instance(ck, label, res, tier, sd, gp_every, res_asis=None):
+    asis = {}
+    for a in (res_asis.cases() if res_asis is not None else []):
+        u.norm_case(a)
+        asis.setdefault(u.case_key(a["inp"]), []).append(a)
     cases = [u.norm_case(x) for x in res.cases()]
     if not cases:
         raise c.MachineryError("%s exported no cases" % label)
@@ -103,15 +121,16 @@ def replay_instance(ck, label, res, tier, sd, gp_every):
         for fmt in fmts:
             work.append((ci, case, fmt))
     wd = c.workdir(PROP, "replay_" + label)
-    parts = [(ch, ffs, str(wd / ("w%d" % i)), sd, gp_every) for i, ch in enumerate(c.chunks(work, c.NPROC * 3))]
+    parts = [(ch, ffs, str(wd / ("w%d" % i)), sd, gp_every, {u.case_key(x[1]["inp"]): asis.get(u.case_key(x[1]["inp"]), []) for x in ch})
+             for i, ch in enumerate(c.chunks(work, c.NPROC * 3))]
     ngp = 0
     for outs in c.pmap(_replay_chunk, parts):
-        for ci, fmt, via, why, lay, obs in outs:
+        for ci, fmt, via, why, lay, obs, sig in outs:
             ck.evaluations += 1
             ngp += via == "gen_params"
             if why:
                 case = cases[ci]
-                ck.violation({"kind": "S->I replay", "instance": label, "fmt": fmt, "via": via, "ff": ffs[case["inp"]["ff"] - 1], "case": case,
+                ck.violation(sig=sig, case={"kind": "S->I replay", "instance": label, "fmt": fmt, "via": via, "ff": ffs[case["inp"]["ff"] - 1], "case": case,
                               "layout": lay, "observed": obs},
                              what="%s (%s syntax, %s): residues %s edges %s, block distances %s: %s" % (
                                  label, fmt, via, case["inp"]["rn"], case["inp"]["edges"],
@@ -131,7 +150,9 @@ def replay_instance(ck, label, res, tier, sd, gp_every):
 DEVS = [("FF_Esmall", "exmax", "C14_Inv", "m10: molecule gets the maximum instead of the minimum distance"),
         ("FF_Esmall", "extaglost", "C14_Inv", "original distance tag lost on merge"),
         ("FF_Esmall", "excutoff", "C14_Inv", "m11: neighbourhood cut-off off by one in the harmful direction"),
-        ("FF_EL", "explicitafterexcl", "C14_Inv", "seed3-C14-2: exclusions generated before the explicit links add their bonds")]
+        ("FF_EL", "explicitafterexcl", "C14_Inv", "seed3-C14-2: exclusions generated before the explicit links add their bonds"),
+        ("FF_EH", "retaglowered", "C14_Inv", "retag-lowered (open): a block lowered by an earlier molecule is retagged with the lowered distance"),
+        ("FF_EH", "tagdropped", "C14_Inv", "seed5-C14-2: tags of earlier molecules dropped while the lowered nrexcl stays")]
 REACH = [("FF_Esmall", "Reach_Gen")]
 
 
@@ -150,18 +171,21 @@ def run(tier):
     E = "FF_Eq" if quick else "FF_Et"
     ck.stage("TLC: model + export + deviations (concurrently)")
     jobs = [(E, "FF_E_export.cfg", {"workers": 6 if quick else 12, "timeout": 3000}), ("FF_Esmall", "FF_E.cfg", {"workers": 2}),
-            ("FF_EX", "FF_E_export.cfg", {"workers": 2}), ("FF_EL", "FF_E_export.cfg", {"workers": 2})]
+            ("FF_EX", "FF_E_export.cfg", {"workers": 2}), ("FF_EL", "FF_E_export.cfg", {"workers": 2}),
+            ("FF_EH", "FF_E_export.cfg", {"workers": 3}), ("FF_EH", "FF_asis.cfg", {"workers": 2})]
     jobs += [(m, "FF_dev_%s.cfg" % d, {"workers": 1, "check": False, "timeout": 600}) for m, d, _, _ in DEVS]
     jobs += [(m, "FF_dev_%s.cfg" % r, {"workers": 1, "check": False, "timeout": 600}) for m, r in REACH]
     res = c.tlc_many(jobs, workers_each=2)
-    ex, small, exx, exl = res[:4]
+    ex, small, exx, exl, exh, exha = res[:6]
     ck.model_must_hold(ex, "C14_Inv (+ C01_Inv, Base_Inv) on instance E")
     ck.model_must_hold(small, "C14_Inv small")
     ck.model_must_hold(exx, "C14_Inv (+ C01_Inv, Base_Inv) on instance EX")
     ck.model_must_hold(exl, "C14_Inv (+ C01_Inv, Base_Inv) on instance EL")
-    for (m, d, inv, what), r in zip(DEVS, res[4:4 + len(DEVS)]):
+    ck.model_must_hold(exh, "C14_Inv on instance EH (histories of one force-field object)")
+    ck.add_tlc(exha)
+    for (m, d, inv, what), r in zip(DEVS, res[6:6 + len(DEVS)]):
         ck.model_must_refute(r, inv, what)
-    for (m, rname), r in zip(REACH, res[4 + len(DEVS):]):
+    for (m, rname), r in zip(REACH, res[6 + len(DEVS):]):
         ck.model_must_refute(r, rname, "non-vacuity: " + rname)
     ck.extra["deviations_refuted"] = [d for _, d, _, _ in DEVS]
 
@@ -169,6 +193,8 @@ def run(tier):
     cases, ffs = replay_instance(ck, "E", ex, tier, sd, 4)
     replay_instance(ck, "EX", exx, "thorough", sd, 3)       # small: always both syntaxes
     replay_instance(ck, "EL", exl, "thorough", sd, 3)       # bonds made by explicit (by_atom_id) links
+    # histories: earlier molecules are built from the same force-field object in the same process (processors only)
+    replay_instance(ck, "EH", exh, "quick" if quick else "thorough", sd, 0, res_asis=exha)
     mixed = [x for x in cases if not x["uniform"] and x["ngenI"] > 0]
     s = mixed[len(mixed) // 2]
     ck.sample({"S->I input": s["inp"], "block distances": {b["name"]: b["nrexcl"] for b in ffs[s["inp"]["ff"] - 1]["blocks"]},
